@@ -878,10 +878,13 @@ def gen_json(rng, d, ws_quirks):
         return '"' + "".join(rng.choice(STR_ALPHA) for _ in range(rng.randint(1, 6))) + '"'
 
     def number():
-        i = rng.choice(["0", str(rng.randint(1, 9)), str(rng.randint(10, 99999)), "1" + "0" * rng.randint(1, 12)])
+        i = rng.choice(["0", str(rng.randint(1, 9)), str(rng.randint(10, 99999)), "1" + "0" * rng.randint(1, 12),
+                        # integers no double represents exactly (beyond 2**53) and long digit strings: json.loads keeps them exact
+                        str(2 ** 53 + rng.randint(1, 99)), str(rng.randint(10 ** 17, 10 ** 25)),
+                        "".join(rng.choice("123456789") for _ in range(rng.randint(16, 30)))])
         s = ("-" if rng.random() < 0.3 else "") + i
         if rng.random() < 0.35:
-            s += "." + "".join(rng.choice("0123456789") for _ in range(rng.randint(1, 4)))
+            s += "." + "".join(rng.choice("0123456789") for _ in range(rng.choice([1, 2, 3, 4, 17, 25])))
         return s
 
     def value(d):
